@@ -142,7 +142,7 @@ def gen_cases(ctx):
                 TEMPLATE[line] = (b, tmpl, vals)
                 lines.append(line)
     # inject_parameters over the statement stream
-    n = 1500 if ctx.quick else 25000
+    n = 1500 if ctx.quick else 100000
     # values of every kind (payload-crate values, vectors, floats, arrays, NULLs): inject_parameters writes them
     # with value_to_string, to_string with the inline writer
     pool = richvalues.make_value_pool(ctx, rng, 400 if ctx.quick else 3000)
